@@ -71,7 +71,12 @@ Definition write_ok (e : list field) (w : wcase) : bool * bool :=
    | FLate, Some OtherErr, Some _ => true
    | _, _, _ => oerr_eqb r err
    end,
-   forallb (fun ne => Z.eqb (effect (nodes fs) (nodes fs') (fst ne)) (snd ne)) effs).
+   (* an append that raises part-way may also raise before anything is
+      appended (the in-memory copy of a construct that reads from the target,
+      fix2-3, is made first and can fail for an inconsistent construct) *)
+   let lenient := match w_mode o, w_fault o with MA, FLate => true | _, _ => false end in
+   forallb (fun ne => Z.eqb (effect (nodes fs) (nodes fs') (fst ne)) (snd ne)
+                      || (lenient && Z.eqb (snd ne) 0)) effs).
 
 Definition check_case
   (cs : list (field * list fname * list fname) * list step_case * wcase) : bool :=
